@@ -3,6 +3,7 @@ package props
 import (
 	"bytes"
 	"crypto/sha256"
+	"encoding/binary"
 	"fmt"
 	"io"
 	"math"
@@ -34,6 +35,21 @@ type JRow struct {
 	F float64
 	B bool   `parquet:",optional"`
 	U []byte `parquet:",optional"`
+	// G: a geometry column (WKB points); a row of every prior history holds a
+	// value that is not WKB, the job rows are all valid
+	G []byte `parquet:",geometry(OGC:CRS84)"`
+	// A: a required fixed-size column fed from a []byte that is nil in some job
+	// rows (stored as zero bytes) and never in prior histories
+	A []byte `parquet:",decimal(2:20)"`
+}
+
+func wkbPoint(x, y float64) []byte {
+	b := make([]byte, 21)
+	b[0] = 1 // little endian
+	binary.LittleEndian.PutUint32(b[1:], 1)
+	binary.LittleEndian.PutUint64(b[5:], math.Float64bits(x))
+	binary.LittleEndian.PutUint64(b[13:], math.Float64bits(y))
+	return b
 }
 
 func c17Rows(seed, n int) []JRow {
@@ -60,6 +76,14 @@ func c17Rows(seed, n int) []JRow {
 		}
 		for j := 0; j < i%4; j++ {
 			r.L = append(r.L, int32(k+j))
+		}
+		r.G = wkbPoint(float64(i), float64(2*k%97))
+		if seed != 1 && i == 1 {
+			r.G = []byte("not valid wkb")
+		}
+		r.A = bytes.Repeat([]byte{0xE0 + byte(i%16)}, 9)
+		if seed == 1 && i%3 == 1 {
+			r.A = nil
 		}
 		switch i % 3 {
 		case 1:
